@@ -161,6 +161,18 @@ def gen(chk, max_ops, simulate=None):
     return g["emitted"], walks, g["stats"]
 
 
+def gen_inserts(chk, max_ops):
+    """insert-focused exhaustive exploration: only BEGIN/COMMIT/ROLLBACK, INSERT and reads, two more steps deep; it reaches the
+    histories in which row slots handed out inside a transaction are interleaved with another handle's inserts and then undone"""
+    cfg = vlib.scratch() + "/GenTxnIns.cfg"
+    open(cfg, "w").write(open(os.path.join(vlib.SPEC, "Gen_Txn_inserts.cfg")).read().replace("MaxOps = 6", "MaxOps = %d" % max_ops)
+                         .replace("MaxKeys = 6", "MaxKeys = %d" % max_ops))
+    g = vlib.tlc_emit("MC_Txn.tla", cfg, timeout=2400)
+    for inv in g["violated"]:
+        raise vlib.ToolError("Txn.tla violates its own invariant %s" % inv)
+    return g["emitted"], g["stats"]
+
+
 def execute(cases):
     rend, meta = [], {}
     for cid, c in enumerate(cases):
@@ -208,7 +220,10 @@ def run(chk):
     rng = random.Random(chk.seed)
     if not thorough:
         cases = vlib.stratified_sample(cases, class_key, 6000, rng)
-    results = execute(cases + walks); chk.mark("replay")
+    ins_cases, istats = gen_inserts(chk, 7 if thorough else 6); chk.mark("tlc_gen_inserts")
+    if thorough:
+        ins_cases = vlib.stratified_sample(ins_cases, lambda c: (class_key(c), tuple((h["op"], h["h"]) for h in c["hist"][-4:])), 150000, rng)
+    results = execute(cases + walks + ins_cases); chk.mark("replay")
     stats, classes, conform_by_op = account(chk, results)
     n = len(results)
     if stats["prefix"] > 0.2 * n:
@@ -219,7 +234,8 @@ def run(chk):
     if not need <= gen_classes:
         raise vlib.ToolError("generated behaviours miss anomaly classes %s" % sorted(need - gen_classes))
     chk.cov = {"states": tstats.get("distinct", 0), "transitions": tstats.get("generated", 0), "traces_validated_against_impl": n,
-               "behaviours_generated_by_tlc": total, "behaviours_replayed": len(cases), "random_walk_steps_replayed": len(walks),
+               "behaviours_generated_by_tlc": total, "behaviours_replayed": len(cases), "random_walk_steps_replayed": len(walks), "insert_focused_behaviours_replayed": len(ins_cases),
+               "insert_focused_model": {"states": istats.get("distinct", 0), "transitions": istats.get("generated", 0), "max_ops": 7 if thorough else 6},
                "verdicts": stats, "anomaly_classes_observed": classes, "conforming_steps_by_op": conform_by_op,
                "model_invariants_checked": ["SequentialWhenAutocommit", "SerialWhenAlone", "OwnWritesVisible", "RefNoDirtyRead", "RefNoLostUpdate"],
                "exhaustive": thorough, "max_ops": 5 if thorough else 4,
